@@ -34,6 +34,9 @@ def cases(tier, rng, boost=1):
     base = [[[0, 1], [1, 2, 2, 0, 0, 1, 2, 1, 0, 2, 2]], [[1, 2, 2, 1, 3, 1, 2], [2, 1, 2, 3, 3, 1, 3]]]
     yield dict(c01._mk(base[0], 3, src='corpus', cls='zero'), fn='estimate', variant='orig')
     yield dict(c06._mk('md_wt', base[1], [1], [3], src='corpus'), fn='md_wt', variant='orig')
+    for trajs, form, tag in gen.special_sets(core.Rng(13)):
+        yield dict(c01._mk(trajs, 2, form=form, src='corpus', cls=tag), fn='estimate', variant='orig')
+        yield dict(c01._mk(trajs[::-1], 2, form=form, src='corpus', cls=tag), fn='estimate', variant='perm')
     n = {'quick': 250, 'thorough': 3000, 'search': 700}[tier] * boost
     for _ in range(n):
         ns = rng.randint(2, 5)
@@ -51,7 +54,7 @@ def cases(tier, rng, boost=1):
         F = [rng.choice([o for o in occ if o not in S] or [occ[0] + 99])]
         for variant, trajs in _variants(rng, trajs0, tier):
             if fn == 'estimate':
-                c = c01._mk(trajs, lag, form=rng.choice(['list_of_arrays', 'mixed_arrays']), cls=cls)
+                c = c01._mk(trajs, lag, form=rng.choice(['list_of_arrays', 'mixed_arrays', 'per_array_narrow', 'unsigned_mixed']), cls=cls)
             elif fn == 'coring':
                 c = c05._mk(trajs, tau, rng.random() < 0.6)
             elif fn in ('md_wt', 'md_paths'):
